@@ -101,6 +101,7 @@ def pUdPlugin : P UdPlugin := do
   | "absent" => pure .absent
   | "echo" => pure .echo
   | "raises" => do let m ← pText; pure (.raises m)
+  | "importraises" => do let m ← pText; pure (.importRaises m)
   | "none" => pure .returnsNone
   | "text" => do let t ← pText; pure (.returnsText t)
   | _ => failure
